@@ -207,8 +207,14 @@ func (fc *FontCase) build() (f *sfnt.Font, wq []int, codes []int) {
 	}
 
 	if st := fc.Style; st != nil {
+		// enumerated independently: may contradict each other and the angle (then only judged on
+		// what the property states, not on how Write resolves the contradiction)
 		f.IsItalic, f.IsOblique, f.IsBold, f.IsRegular = st.Italic, st.Oblique, st.Bold, st.Regular
 		f.Weight = os2.Weight(st.Weight)
+	} else {
+		// style flags consistent by construction
+		f.IsItalic = f.ItalicAngle != 0
+		f.IsRegular = !f.IsBold && !f.IsItalic && !f.IsOblique
 	}
 	if fc.Geo != "" && n >= 6 {
 		fc.degenerate(f)
@@ -501,7 +507,14 @@ func rationalMatrix(M matrix.Matrix) (N [6]int, D int, ok bool) {
 
 // declared collects the tables with derived fields as the written file declares them.
 func declared(e ev) ev {
-	return ev{"hhea": e["hhea"], "hm": e["hm"], "head": e["head"], "os2": e["os2"], "maxp": e["maxp"], "post": e["post"]}
+	intw := true // integer advance widths in the font value that was written
+	for _, x := range e["wq"].([]int) {
+		if x%20 != 0 {
+			intw = false
+		}
+	}
+	return ev{"hhea": e["hhea"], "hm": e["hm"], "head": e["head"], "os2": e["os2"], "maxp": e["maxp"], "post": e["post"],
+		"st": e["st"], "intw": intw}
 }
 
 func milli(r [4]float64) [4]int {
